@@ -146,7 +146,24 @@ def gen_list_op(r, m, item, ops=OPS):
     elif k == "sort":
         op["reverse"] = r.random() < 0.5
         op["key"] = r.choice([None, None, "neg", "mod3"])
+    if "vs" in op and not op.get("noniter") and r.random() < 0.3:
+        # the shape of the argument: any iterable is as good as a list (a generator
+        # has neither __len__ nor __length_hint__, a tuple is no list, ...)
+        op["as"] = r.choice(["gen", "gen", "tuple", "iter", "map"])
     return op
+
+
+def shape_arg(items, how):
+    """The same items as another kind of iterable."""
+    if how == "gen":
+        return (x for x in items)
+    if how == "tuple":
+        return tuple(items)
+    if how == "iter":
+        return iter(items)
+    if how == "map":
+        return map(lambda x: x, items)
+    return items
 
 
 def sut_list_apply(tl, op):
@@ -158,7 +175,7 @@ def sut_list_apply(tl, op):
         if "iter_raise_at" in op:
             arg = RaisingIter(items, op["iter_raise_at"], op["iter_exc"])
         else:
-            arg = items
+            arg = shape_arg(items, op.get("as"))
     if k == "setitem_i":
         return sut(tl.__setitem__, op["i"], raw(op["v"]))
     if k == "setitem_s":
